@@ -196,6 +196,10 @@ class Engine:
     def global_value(self, name, ctx):
         if name in self.globals_:
             return self.const_value(self.globals_[name])
+        if name in getattr(self, 'abstract_globals', {}):
+            # a module-level table entering by its TYPE only (GLOBALS_ABSTRACT): one fixed, otherwise arbitrary value
+            ty = parse_type(self.abstract_globals[name], self.aliases)
+            return V(ty, z3.Const('glob_' + name, ty.sort()))
         if name in ('True', 'False'):
             return mk_bool(name == 'True')
         return None
@@ -685,6 +689,20 @@ class Engine:
             return V(s.ty, z3.Store(s.t, coerce(x, s.ty.elem).t, True))
         if name == 'sorted_set':
             return self.sorted_of_set(ev.ev(n.args[0], ctx), ctx)
+        if name == 'py_str':
+            # the text an f-string writes for a number (the function the code's own f'{x}' denotes, LC-NUMTEXT)
+            x = ev.ev(n.args[0], ctx)
+            if x.ty not in (INT, REAL, BOOL):
+                raise OutOfSubset(f'py_str of {x.ty}')
+            return V(STR, z3.Function('py_str_' + x.ty.name, x.ty.sort(), z3.StringSort())(x.t))
+        if name == 'dict_set':
+            # dict_set(d, k, x): the dictionary d after d[k] = x
+            d = ev.ev(n.args[0], ctx)
+            if isinstance(d.ty, TOpt):
+                d = ev.unwrap_opt(d, ctx)
+            k = coerce(ev.ev(n.args[1], ctx), d.ty.k)
+            x = coerce(ev.ev(n.args[2], ctx), d.ty.v)
+            return V(d.ty, d.ty.mk(z3.Store(d.ty.has(d.t), k.t, True), z3.Store(d.ty.at(d.t), k.t, x.t)))
         if name == 'real':
             v = ev.ev(n.args[0], ctx)
             return V(REAL, to_real(v))
